@@ -831,8 +831,8 @@ LEVEL_TEXT = ('Partial proof. Coq proves, for EVERY store, every NaN-free input,
               '(bodies regenerated from operator.py; fresh or user-supplied temporaries), five translated leaf classes, twelve translated proximal operators and primitive leaves of all three '
               'dispatch kinds incl. alias-returning ones: in-place = out-of-place = the denoted function, result is y / '
               'an element of the range, no other pre-existing object (in particular x) is modified; same for '
-              'functional-valued trees; ProductSpaceOperator (any entry list; loop invariants) and ComponentProjectionAdjoint. Refuted (and recorded): out.set_zero() on < 100 entries keeps NaN, hence '
-              'proximal_l2 (step >= 1) in place AND out of place, and three more operators found by the probes. '
+              'functional-valued trees; ProductSpaceOperator (any entry list; loop invariants) and ComponentProjectionAdjoint. set_zero (repaired in /repo d3867d7) ignores old contents at every size for the regenerated small-size '
+              'branch, hence proximal_l2 (step >= 1) in both modes, empty rows and ComponentProjectionAdjoint. '
               'All other leaf classes (199 of 211 classes + 24 proximal factories + 72 ufuncs x 3 space kinds) are '
               'validated by probes that measure the leaf contract, not proved.')
 LEVEL_NOTE = ('Trusted: translate/call_bodies.py (fail-closed ast grammar) and the interpreter of the body language; the '
